@@ -13,7 +13,7 @@ ASSUMPTIONS = ['the hook is invoked for arbitrary script types/names at arbitrar
 
 def correspondence(ctx):
     n = ctx.n(50, 1200)
-    hs = [PS.gen_history(ctx.rng) for _ in range(n)]
+    hs = [PS.hook_history(ctx.rng) for _ in range(ctx.n(25, 400))] + [PS.gen_history(ctx.rng) for _ in range(n)]
     nev, dis, rows, shards = PS.run_histories(hs, PID.lower())
     out = []
     for d in dis[:3]:
@@ -34,8 +34,8 @@ def correspondence(ctx):
 def oracle(ctx, budget=1, replay=None, hints=None):
     fails, n = [], 120 * budget
     dist = dict(histories=0, events=0)
-    for _ in range(n):
-        h = PS.gen_history(ctx.rng)
+    for k in range(n):
+        h = PS.gen_history(ctx.rng) if k % 3 else PS.hook_history(ctx.rng)
         dist['histories'] += 1
         dist['events'] += len(h['events'])
         f = PO.run_history(h, ('C15',))
